@@ -22,45 +22,48 @@ Proof. unfold heads_equal. toR. apply Rleb_true. Qed.
 (* the outcomes.  A flow is returned only (a) as a root the secant search reports as converged, at or right of the
    minimum-friction flow, or (b) as the answer of the bracketing solver -- asked only when (a) failed and the gap is
    positive at the largest flow -- and then only when it converged and the heads at it agree to 1e-6 relative.
-   ValueError: exactly when the two starting flows coincide.  IndexError escapes only from the evaluation at the
-   largest tabulated flow; one raised inside the secant search is swallowed. *)
+   scipy's ValueError (its two starting flows coincide) cannot occur: over the reals they coincide only when the
+   minimum-friction flow IS the largest flow, which is answered with OperatingPointError before the search (in binary64
+   a largest flow one ulp above qimin would still coincide).  IndexError escapes only from the evaluation at the largest
+   tabulated flow; one raised inside the secant search is swallowed. *)
 Lemma outcomes qimin qlast hsys hpump bc br hs hp :
   let x1 := (qimin + qlast) / 2 in
-  (exists r vis, fop qimin qlast hsys hpump bc br hs hp = (Ok r, vis) /\ hsys <= hpump /\
+  (exists r vis, fop qimin qlast hsys hpump bc br hs hp = (Ok r, vis) /\ hsys <= hpump /\ qimin < qlast /\
      ((qimin <= r /\ secant RN gap raises qimin x1 = (Some (r, true), vis)) \/
       (r = br /\ accepted RN qimin (fst (secant RN gap raises qimin x1)) = None /\ raises qlast = false /\ 0 < gap qlast /\ bc = true /\
        Rabs (hs - hp) <= 1 / 1000000 * Rmax (Rabs hs) (Rabs hp)))) \/
   (exists vis, fop qimin qlast hsys hpump bc br hs hp = (OperatingPointError, vis)) \/
-  (fop qimin qlast hsys hpump bc br hs hp = (ValueError, []) /\ x1 = qimin) \/
   (exists vis, fop qimin qlast hsys hpump bc br hs hp = (IndexErr, vis) /\ raises qlast = true).
 Proof.
   cbv zeta. unfold find_operating_point. toR. destruct (Rltb hpump hsys) eqn:B; [right; left; eauto|].
-  apply Rltb_false in B. cbv zeta.
-  destruct (Reqb ((qimin + qlast) / 2) qimin) eqn:E; [right; right; left; split; [reflexivity|apply Reqb_true; exact E]|].
+  apply Rltb_false in B. destruct (Rleb qlast qimin) eqn:QL; [right; left; eauto|]. apply Rleb_false in QL. cbv zeta.
+  assert (E : Reqb ((qimin + qlast) / 2) qimin = false).
+  { unfold Reqb. destruct (Req_EM_T ((qimin + qlast) / 2) qimin) as [A|_]; [lra|reflexivity]. }
+  rewrite E.
   destruct (secant RN gap raises qimin ((qimin + qlast) / 2)) as [r vis] eqn:S. cbn [fst].
   destruct (accepted RN qimin r) as [root|] eqn:A.
-  - left. exists root, vis. split; [reflexivity|]. split; [exact B|]. left.
+  - left. exists root, vis. split; [reflexivity|]. split; [exact B|]. split; [exact QL|]. left.
     unfold accepted in A. destruct r as [[r0 c]|]; [|discriminate A]. destruct c; [|discriminate A]. toR_in A.
     destruct (Rleb qimin r0) eqn:L; [|discriminate A]. injection A as <-. apply Rleb_true in L. split; [exact L|reflexivity].
-  - destruct (raises qlast) eqn:RL; [right; right; right; eauto|].
+  - destruct (raises qlast) eqn:RL; [right; right; eauto|].
     destruct (Rltb 0 (gap qlast)) eqn:G; [|right; left; eauto].
     destruct (bc && heads_equal RN hs hp)%bool eqn:H; [|right; left; eauto].
     apply andb_true_iff in H. destruct H as [Hb Hh]. apply heads_equal_spec in Hh. apply Rltb_true in G.
-    left. exists br, vis. split; [reflexivity|]. split; [exact B|]. right. repeat split; assumption.
+    left. exists br, vis. split; [reflexivity|]. split; [exact B|]. split; [exact QL|]. right. repeat split; assumption.
 Qed.
 
 (* the landing clause: pump head at least system head at the minimum-friction flow, system head above pump head at the
    largest flow, and a bracketing solver that converges to a flow at which the heads agree: a flow is returned whatever
    the unbracketed search did -- its own converged root right of qimin, or else the bracketed one *)
-Lemma lands qimin qlast hsys hpump br hs hp : hsys <= hpump -> (qimin + qlast) / 2 <> qimin ->
+Lemma lands qimin qlast hsys hpump br hs hp : hsys <= hpump -> qimin < qlast ->
   raises qlast = false -> 0 < gap qlast -> Rabs (hs - hp) <= 1 / 1000000 * Rmax (Rabs hs) (Rabs hp) ->
   exists r vis, fop qimin qlast hsys hpump true br hs hp = (Ok r, vis) /\
     (r = br \/ (qimin <= r /\ secant RN gap raises qimin ((qimin + qlast) / 2) = (Some (r, true), vis))).
 Proof.
   intros H1 H2 H3 H4 H5. unfold find_operating_point. toR.
-  rewrite (proj2 (Rltb_false hpump hsys) H1). cbv zeta.
+  rewrite (proj2 (Rltb_false hpump hsys) H1). rewrite (proj2 (Rleb_false qlast qimin) H2). cbv zeta.
   assert (E : Reqb ((qimin + qlast) / 2) qimin = false).
-  { unfold Reqb. destruct (Req_EM_T ((qimin + qlast) / 2) qimin) as [A|_]; [contradiction|reflexivity]. }
+  { unfold Reqb. destruct (Req_EM_T ((qimin + qlast) / 2) qimin) as [A|_]; [lra|reflexivity]. }
   rewrite E. destruct (secant RN gap raises qimin ((qimin + qlast) / 2)) as [r vis] eqn:S.
   destruct (accepted RN qimin r) as [root|] eqn:A.
   - exists root, vis. split; [reflexivity|]. right.
@@ -68,6 +71,13 @@ Proof.
     destruct (Rleb qimin r0) eqn:L; [|discriminate A]. injection A as <-. apply Rleb_true in L. split; [exact L|reflexivity].
   - rewrite H3, (proj2 (Rltb_true 0 (gap qlast)) H4). rewrite (proj2 (heads_equal_spec hs hp) H5). cbn [andb].
     exists br, vis. split; [reflexivity|left; reflexivity].
+Qed.
+
+(* the minimum-friction flow at (or beyond) the largest flow: OperatingPointError, nothing is searched *)
+Lemma at_end qimin qlast hsys hpump bc br hs hp : qlast <= qimin -> hsys <= hpump ->
+  fop qimin qlast hsys hpump bc br hs hp = (OperatingPointError, []).
+Proof.
+  intros H1 H2. unfold find_operating_point. toR. rewrite (proj2 (Rltb_false hpump hsys) H2), (proj2 (Rleb_true qlast qimin) H1). reflexivity.
 Qed.
 
 (* a converged search: the reported root is one secant update from the last evaluated flow b, no further than the
